@@ -57,3 +57,12 @@ Example C09_accepts_horizontal :
                 (-5,5)%Z (15,5)%Z [] [0#1; 1#4; 3#4; 1#1] = true.
 Proof. vm_compute. reflexivity. Qed.
 Print Assumptions C09_open_cut.
+
+(* the sweep's contribution rule for OPEN edges, as TRANSLATED FROM /repo's CURRENT SOURCE on every run
+   (Gen/Decisions_gen.v, clipper_base.go:isContributingOpen), is want_open of the closed windings *)
+From Clip Require Import Gen.Decisions_gen Model.DecisionProofs.
+Theorem C09_open_contribution_rule :
+  forall fr ct wc wc2 is_subj, ct <> NoClip -> open_counts_ok fr wc wc2 ->
+    gen_isContributingOpen fr ct wc wc2 is_subj = want_open ct fr [wc; wc2].
+Proof. exact isContributingOpen_is_want_open. Qed.
+Print Assumptions C09_open_contribution_rule.
